@@ -122,6 +122,14 @@ def enum_units(tier, seed):
         {"rom": "high", "files": {}, "ir": [{"k": "const", "n": "kx_a", "e": L(0x10), "eager": True}, {"k": "org", "a": 0xC0FFFD},
                                            {"k": "block", "b": [lda(["id", "kx_a"]), {"k": "const", "n": "kx_a", "e": L(0x123456), "eager": False}]}] + sp("lb_after")},
     ]
+    # a name with a known value (:= constant) that the same scope defines again later with `=`: the operand before the second
+    # definition must not be sized with the old value and emitted with the new one (accepted only with agreeing sizes)
+    for ctx in ("root", "block", "named"):
+        for old, new_v in ((0x12, 0x1234), (0x1234, 0x12), (0x12, 0x123456), (0x1234, 0x123456)):
+            body = [{"k": "const", "n": "kx_r", "e": L(old), "eager": True}, lda(["id", "kx_r"])] + sp("lb_mid") + \
+                   [{"k": "const", "n": "kx_r", "e": L(new_v), "eager": False}, {"k": "data", "d": "dl", "es": [["id", "kx_r"]]}]
+            wrap = body if ctx == "root" else [{"k": "block", "b": body}] if ctx == "block" else [{"k": "scope", "n": "sc_r", "b": body}]
+            cases.append({"rom": "low", "files": {}, "ir": [{"k": "org", "a": 0x018000}] + wrap + sp("lb_end")})
     # a qualified name that an outer named scope already exports when it is first evaluated (label pass) and that a nearer
     # scope of the same name (defined later, inside the enclosing block / scope / loop / macro) must win at emission
     def named(body):
